@@ -74,6 +74,9 @@ type Contract struct {
 	ResultNames []string
 	Uses       []*Clause // lemma instantiations: "use lemmaName(args)" evaluated at entry
 	Cuts       []*Cut    // intermediate assertions anchored on a source statement: after "<stmt text>" assert[label] expr
+	Inlines    map[string]int // callees whose real bodies are executed in place while this function is verified (value: how often their loops are unrolled)
+	FnType     bool      // "contract type T": contract of every value of the named function type T that is not a known function (self = the value)
+	UnrollAll  int       // "unroll n": loops of this function are unrolled n times when its body is executed in place
 }
 
 // Cut: an intermediate assertion. It is an obligation where it stands and an assumption for what follows (the usual
@@ -112,7 +115,7 @@ func clauseTexts(cs []*Clause) string {
 	return strings.Join(ts, ", ")
 }
 
-var clauseRe = regexp.MustCompile(`^(requires|ensures|invariant|modifies|decreases|let|loop|split|trusted|inline|pure|noalloc|retains|use|results|after)\b(\[[^\]]*\])?\s*(.*)$`)
+var clauseRe = regexp.MustCompile(`^(requires|ensures|invariant|modifies|decreases|let|loop|split|trusted|inlines|inline|pure|noalloc|retains|use|results|after)\b(\[[^\]]*\])?\s*(.*)$`)
 var afterRe = regexp.MustCompile("^`([^`]*)`\\s+(assert|cut|use|let)(\\[[^\\]]*\\])?\\s+(.*)$")
 
 // parseContractFile reads //@ blocks from a file. pkgName qualifies unqualified keys.
@@ -159,7 +162,15 @@ func parseContractFile(path, pkgName, pkgPath string) ([]*Contract, error) {
 		if strings.HasPrefix(body, "contract ") {
 			pendingMacro = nil
 			key := strings.TrimSpace(body[len("contract "):])
-			cur = &Contract{Key: qualifyKey(key, pkgName), PkgName: pkgName, PkgPath: pkgPath, Loops: map[int]*LoopSpec{}, Where: where}
+			fnType := false
+			if strings.HasPrefix(key, "type ") {
+				fnType = true
+				key = strings.TrimSpace(key[len("type "):])
+			}
+			cur = &Contract{Key: qualifyKey(key, pkgName), PkgName: pkgName, PkgPath: pkgPath, Loops: map[int]*LoopSpec{}, Where: where, FnType: fnType}
+			if fnType {
+				cur.Key = "type " + cur.Key
+			}
 			out = append(out, cur)
 			last = nil
 			continue
@@ -274,6 +285,24 @@ func parseContractFile(path, pkgName, pkgPath string) ([]*Contract, error) {
 			}
 			last.Splits = append(last.Splits, rest)
 			last = &Clause{Text: "", Where: where} // continuation lines after split are not supported
+			last = nil
+		case "inlines":
+			// inlines F, G unroll 6, H : the bodies of these callees are executed in place (loops of G unrolled 6 times, with an
+			// unwinding obligation), instead of being used through their contracts
+			if cur.Inlines == nil {
+				cur.Inlines = map[string]int{}
+			}
+			for _, item := range strings.Split(rest, ",") {
+				f := strings.Fields(item)
+				if len(f) == 0 {
+					continue
+				}
+				n := 0
+				if len(f) == 3 && f[1] == "unroll" {
+					n, _ = strconv.Atoi(f[2])
+				}
+				cur.Inlines[qualifyKey(f[0], pkgName)] = n
+			}
 			last = nil
 		case "trusted":
 			cur.Trusted = true
